@@ -33,7 +33,7 @@ BUDGET = {"quick": 480, "thorough": 8000}
 SHRINK_SECONDS = {"quick": 40, "thorough": 300}
 RULE = (
     "case = (modes, rational frequencies + optional interaction, 1-3 perturbation words with rational coefficients, "
-    "input form scalar / 1x1 matrix / 2-block matrix / 3-block matrix with pairwise different offsets / 2 blocks with fully_diagonalize=[1], optional operator mask, order K). Non-trivial = (>= 2 modes or a "
+    "input form scalar / 1x1 matrix / 2-block matrix / 3-block matrix with pairwise different offsets / 2 blocks with fully_diagonalize=[1] / 2 blocks coupled only by +-(2i/3) N_0, optional operator mask, order K). Non-trivial = (>= 2 modes or a "
     "number-dependent denominator) and H_tilde or U at order >= 2 has a non-zero matrix element on a column whose "
     "occupation contains a boundary value (0, or spin/fermion occupation)."
 )
